@@ -64,7 +64,7 @@ def gen_cases(ctx):
             2 ** 31 - 1, 2 ** 31, 2 ** 32 - 1, 2 ** 32, 2 ** 63 - 1, 2 ** 63, 2 ** 64 - 1, 2 ** 64]
     for k in range(1, kmax + 1):
         nums += [128 ** k - 1, 128 ** k, 128 ** k + 1]
-    for _ in range(ctx.scale(400, 12000)):
+    for _ in range(ctx.scale(1500, 12000)):
         bits = rng.choice([rng.randint(1, 35), rng.randint(1, 70), rng.randint(1, ctx.scale(100, 300))])
         nums.append(rng.getrandbits(bits))
     cases = []
